@@ -42,10 +42,10 @@ def main(argv):
         ctx.assumptions += ob.get('assumptions', [])
         if replay:
             case = json.load(open(replay))
-            ctx.build(ob['theorems'])
+            ctx.build(ob['theorems'], tuple(ob.get('extra_modules', ())))
             rc = mod.replay(ctx, case)
             return rc
-        ctx.build(ob['theorems'])
+        ctx.build(ob['theorems'], tuple(ob.get('extra_modules', ())))
         if tier == 'thorough':
             ctx.leanchecker()
         mod.run(ctx)
